@@ -32,8 +32,8 @@ EXTENDS Prims, SequencesExt
 Trace == ndJsonDeserialize(IOEnv.VERIF_TRACE)
 Prop == IOEnv.VERIF_PROP
 
-VARIABLES l, hist, ub, held, q, lead, F, G, src, last, part, ref, big, reg, wrote, bad, nchk
-vars == <<l, hist, ub, held, q, lead, F, G, src, last, part, ref, big, reg, wrote, bad, nchk>>
+VARIABLES l, hist, ub, held, q, lead, F, G, src, last, part, ref, big, reg, wrote, mb, bad, nchk
+vars == <<l, hist, ub, held, q, lead, F, G, src, last, part, ref, big, reg, wrote, mb, bad, nchk>>
 
 Get(f, k, d) == IF k \in DOMAIN f THEN f[k] ELSE d
 Put(f, k, x) == [y \in DOMAIN f \cup {k} |-> IF y = k THEN x ELSE f[y]]
@@ -52,6 +52,7 @@ Init ==
   /\ big = Empty
   /\ reg = AlgNames       \* the checksum services registered (library start-up state)
   /\ wrote = Empty        \* what the last writer primitive put into a buffer (for its read-back)
+  /\ mb = Empty           \* the MODEL's reading position in a buffer read by a sequence of reader primitives (C11)
   /\ bad = <<>> /\ nchk = 0
 
 ---------------------------------------------------------------------------
@@ -254,6 +255,13 @@ FixedFns == {"WriteFixedString", "WriteFixedStringWithPadding", "ReadFixedString
 (* not stripped as a byte (named deviation of C13)                         *)
 PadIsHigh(a) == "pad" \in DOMAIN a /\ a.pad >= 128
 
+(* the model's own position in buffer b: its bytes, and whether it already ran out of input *)
+MB(b, pre) == Get(mb, b, [bytes |-> pre, dead |-> FALSE])
+MRead(b, fn, a, pre, R) == LET cur == MB(b, pre) IN IF cur.bytes = pre THEN R ELSE PRead(fn, a, cur.bytes)
+ModelShort(b, fn, a, pre, R) ==
+  LET cur == MB(b, pre) IN
+  cur.dead \/ (cur.bytes # pre /\ LET M == PRead(fn, a, cur.bytes) IN ~M.ok /\ M.why = "short")
+
 PrimClauses(e) ==
   LET a == e.args
       fn == e.fn
@@ -290,6 +298,11 @@ PrimClauses(e) ==
           \cup (IF P("C18") /\ R.ok /\ e.tag = "read-back" /\ (e.res = "err" \/ (e.res = "ok" /\ Len(e.ret) # Len(R.ret)))
                  THEN {<<"C18.read-back", "none">>} ELSE {})
           \cup (IF P("C11") /\ ~R.ok /\ R.why = "short" /\ e.res = "ok" THEN {<<"C11.primitive-short-read", "none">>} ELSE {})
+          \cup (* a sequence of reads is a message: where the model, reading the same fields one after the other from
+                  the bytes that were loaded, runs out of input, the implementation's read must not succeed
+                  (even if an earlier read of the sequence left more bytes behind than it should have)          *)
+               (IF P("C11") /\ R.ok /\ e.res = "ok" /\ ModelShort(e.b, fn, a, pre, R)
+                THEN {<<"C11.primitive-sequence-short", "none">>} ELSE {})
           \cup (IF P("C09") /\ e.res \notin {"ok", "err"}
               THEN {<<"C09.primitive-outcome", IF e.res = "abort" THEN "Reserve_BeforeCheck" ELSE "none">>} ELSE {})
           \cup (IF P("C10") /\ e.alloc >= 0 /\ e.alloc > 16384 + 64 * e.inlen THEN {<<"C10.primitive-alloc", "Reserve_BeforeCheck">>} ELSE {})
@@ -374,6 +387,14 @@ Step(e) ==
                [] OTHER -> last
   /\ big' = IF e.op = "fill" THEN Put(big, b, e.args.runs) ELSE big
   /\ wrote' = IF e.op = "prim" /\ e.fn \in Writers /\ e.fn # "Padding" /\ e.res = "ok" THEN Put(wrote, b, ArgOf(e.fn, e.args)) ELSE wrote
+  /\ mb' = IF e.op \notin BufOps \/ e.op \in {"peek", "calc"} \/ ~P("C11") THEN mb
+           ELSE IF e.op = "prim" /\ e.fn \notin Writers
+           THEN LET cur == MB(b, pre)
+                    M == PRead(e.fn, e.args, cur.bytes)
+                IN IF cur.dead \/ (~M.ok /\ M.why = "short") THEN Put(mb, b, [bytes |-> cur.bytes, dead |-> TRUE])
+                   ELSE IF M.ok THEN Put(mb, b, [bytes |-> Drop(cur.bytes, M.used), dead |-> FALSE])
+                   ELSE Put(mb, b, [bytes |-> e.post, dead |-> FALSE])
+           ELSE Put(mb, b, [bytes |-> e.post, dead |-> FALSE])
   /\ reg' = CASE e.op = "regremove" -> reg \ {e.alg}
               [] e.op = "regrestore" -> reg \cup {e.alg}
               [] OTHER -> reg
@@ -389,6 +410,7 @@ ResetHistory ==
   /\ big' = Empty
   /\ reg' = AlgNames
   /\ wrote' = Empty
+  /\ mb' = Empty
 
 Next ==
   /\ l <= Len(Trace)
